@@ -40,6 +40,7 @@ enum Status {
 struct Model {
     status: Vec<Status>,
     advances: u8,
+    rotations: u8,
 }
 
 #[derive(Clone, Debug, Serialize, Deserialize)]
@@ -53,6 +54,8 @@ enum Act {
         auth: bool,
     },
     Advance(u32),
+    /// the signer set is rotated (approvals and executed marks must be unaffected)
+    Rotate,
 }
 
 struct C02 {
@@ -69,8 +72,9 @@ const CONTENTS: [Content; 5] = [
     Content { src: 0, dest: 2, hash: 0 },
 ];
 
+/// the two source addresses differ only in letter case
 fn src_str(i: u8) -> &'static str {
-    if i == 0 { "S" } else { "T" }
+    if i == 0 { "0xAbCdEf" } else { "0xabcdef" }
 }
 fn hash_of(i: u8) -> [u8; 32] {
     if i == 0 { H1 } else { H2 }
@@ -118,12 +122,12 @@ impl Scenario for C02 {
         let a = env.register(Principal, ());
         let b = env.register(Principal, ());
         let k = env.register(Caller, ());
-        let keys = Keys::new(1);
+        let keys = Keys::new(2);
         let set = SetSpec { signers: vec![(0, 1)], threshold: 1, nonce: 1 };
         let gw = register_gateway(&w, None, &owner, &operator, &DOMAIN, 0, 0, &[set.raw(&keys)]);
         (
             Ctx { w, gw, keys, set, dests: vec![a, b, k] },
-            Model { status: vec![Status::NotApproved; self.keys.len()], advances: 0 },
+            Model { status: vec![Status::NotApproved; self.keys.len()], advances: 0, rotations: 0 },
         )
     }
 
@@ -149,6 +153,9 @@ impl Scenario for C02 {
                 v.push(Act::Validate { key: k, caller, src: 0, hash: 0, auth: false });
             }
         }
+        if m.rotations < 1 {
+            v.push(Act::Rotate);
+        }
         if m.advances < self.max_adv {
             v.push(Act::Advance(20));
             // ~64 days: longer than any TTL a contract extends to, shorter than the minimum persistent TTL
@@ -164,7 +171,8 @@ impl Scenario for C02 {
             Act::Approve(batch) => {
                 out.kind = "approve";
                 let msgs: Vec<ScVal> = batch.iter().map(|(k, c)| self.msg(ctx, *k, *c)).collect();
-                let call = approve(w, &ctx.gw, &ctx.keys, &ctx.set, &DOMAIN, &msgs);
+                let set = if m.rotations == 0 { ctx.set.clone() } else { SetSpec { signers: vec![(1, 1)], threshold: 1, nonce: 2 } };
+                let call = approve(w, &ctx.gw, &ctx.keys, &set, &DOMAIN, &msgs);
                 out.accepted = call.ok;
                 out.expect(call.ok, "approve.honest-proof-rejected", || {
                     format!("honest approval rejected: {}", call.err)
@@ -258,6 +266,18 @@ impl Scenario for C02 {
                     });
                 }
             }
+            Act::Rotate => {
+                out.kind = "rotate";
+                let next = SetSpec { signers: vec![(1, 1)], threshold: 1, nonce: 2 };
+                let raw = next.raw(&ctx.keys);
+                let proof = honest_proof(&ctx.keys, &ctx.set, &DOMAIN, &raw.rotation_data_hash());
+                let call = w.call(&ctx.gw, "rotate_signers", &[to_val(env, &raw.scval()), to_val(env, &proof), w.v(false)], Auth::Nobody);
+                out.accepted = call.ok;
+                out.expect(call.ok, "rotate.rejected", || call.err.clone());
+                if call.ok {
+                    m.rotations += 1;
+                }
+            }
             Act::Advance(n) => {
                 out.kind = "advance";
                 out.accepted = true;
@@ -312,7 +332,7 @@ fn main() {
         let mut o = Opts::new(tier, if tier == "quick" { 12 } else { 16 });
         o.min_depth = 4;
         o.xcheck = tier == "thorough";
-        o.rule = "all sequences over {approve single x4 contents per key, 4 batches (same-key/different-content, identical twins, two keys, three entries), validate_message x {3 callers (two principals, one calling contract), 2 source addresses, 2 payload hashes, authorised or not} per key, advance 20 ledgers (bounded)}; ids (ab,c)/(a,bc) differ only in the split; explored to fixpoint of the finite status graph; after every new state is_message_approved for all key x content pairs and is_message_executed for all keys are compared with the model".into();
+        o.rule = "all sequences over {approve single x4 contents per key, 4 batches (same-key/different-content, identical twins, two keys, three entries), a signer rotation, validate_message x {3 callers (two principals, one calling contract), 2 source addresses differing only in letter case, 2 payload hashes, authorised or not} per key, advance 20 ledgers (bounded)}; ids (ab,c)/(a,bc) differ only in the split; explored to fixpoint of the finite status graph; after every new state is_message_approved for all key x content pairs and is_message_executed for all keys are compared with the model".into();
         (s, o)
     });
 }
